@@ -307,6 +307,9 @@ pub fn apply(case: &Case) -> (G, Vec<u32>) {
             }
         };
         res.push(r);
+        // between two mutations every read API that could fill a cache is called (results discarded): whatever the graph
+        // memoises must be invalidated by the next mutation
+        if res.len() % 2 == 1 { crate::graphgen::warm_caches(&g); }
     }
     (g, res)
 }
@@ -604,14 +607,16 @@ pub enum Profile {
     Weights, // C03: repeated edges with smaller / larger weights, uniformly weighted or unweighted
     Degrees, // C09: directed self-loops, parallel edges
     Big,     // 10..16 nodes, two or three hubs of high degree, long histories: size-dependent code paths
+    Huge,    // 24..40 nodes (above the rayon threshold of the algorithms), hubs, histories of 60..140 operations
 }
 
 pub fn gen_case(rng: &mut Rng, profile: Profile, max_ops: usize) -> Case {
     let specs = Specs::from_index(rng.below(96) as u32);
     // names drawn so that sort order differs from insertion order
-    let big = matches!(profile, Profile::Big);
-    let k = if big { rng.range(10, 16) as usize } else { rng.range(2, 5) as usize };
-    let mut pool: Vec<u32> = if big { (1..=30).collect() } else { (1..=9).collect() };
+    let huge = matches!(profile, Profile::Huge);
+    let big = matches!(profile, Profile::Big) || huge;
+    let k = if huge { rng.range(24, 40) as usize } else if big { rng.range(10, 16) as usize } else { rng.range(2, 5) as usize };
+    let mut pool: Vec<u32> = if huge { (1..=70).collect() } else if big { (1..=30).collect() } else { (1..=9).collect() };
     rng.shuffle(&mut pool);
     let names: Vec<u32> = pool[..k].to_vec();
     let absent = pool[k];
@@ -627,9 +632,9 @@ pub fn gen_case(rng: &mut Rng, profile: Profile, max_ops: usize) -> Case {
             None => if rng.chance(60) { Some(rng.range(-2, 6)) } else { None },
         }
     };
-    let nops = if big { rng.range(20, 60) as usize } else { rng.range(1, max_ops as i64) as usize };
+    let nops = if huge { rng.range(60, 140) as usize } else if big { rng.range(20, 60) as usize } else { rng.range(1, max_ops as i64) as usize };
     // hubs (Big profile): most edges touch one of them, so that their adjacency lists grow long
-    let nhubs = if big { rng.range(2, 3) as usize } else { 0 };
+    let nhubs = if huge { rng.range(2, 5) as usize } else if big { rng.range(2, 3) as usize } else { 0 };
     let hub_pos: Vec<usize> = { let mut idx: Vec<usize> = (0..k).collect(); rng.shuffle(&mut idx); idx[..nhubs].to_vec() };
     let hubs: Vec<u32> = hub_pos.iter().map(|i| names[*i]).collect();
     let mut ops = vec![];
